@@ -730,6 +730,7 @@ func c14Case(e *emitter, s *xstmt, stream, fault, base string, mode int) (int, c
 	var evInfo t1EvalInfo
 	if o.cls == 0 && mode != 2 && t1EvalStreams[stream] && (s.form == "select" || s.form == "delete") {
 		evStore, evTrees, evInfo = t1EvalTerms(q, t1StoreFor(s))
+		evTrees = c14FoldEvalTerms(q, t1StoreFor(s), evTrees, &evInfo) // the folded trees (c14fold.go)
 		rp.T1Eval = evInfo.summary
 	}
 	term := fmt.Sprintf("Case %s %d %d (%d) %d %s %s %s %s", s.coq(), mode, o.cls, o.pos, o.calls, tree, coqBool(o.typeErr != ""), evStore, evTrees)
@@ -1480,6 +1481,9 @@ func runC14(c *runCtx) error {
 	// ---------------------------------------------------------------- T1: every scalar function with
 	// well-typed and ill-typed arguments at several depths, list-valued IN
 	t1Functions(e, full, sample)
+	// ---------------------------------------------------------------- t2: foldable constants next to
+	// typed operands (c14fold.go)
+	c14FoldStream(e, full, sample)
 	// ---------------------------------------------------------------- typed statements and their mutants
 	n, perSlot := 60, 1
 	if c.thorough() || c.search {
